@@ -38,7 +38,8 @@ REQUIRED = dict(monitors=['deck-opaque-at-or-below-top', 'deck-zero-above', 'dec
                          'lee:set', 'lee:unset', 'lee:inverted', 'lee:outside', 'nlayers:2', 'retune:deck',
                          'retune:flat', 'retune:lee', 'retune:evaluation-after-write', 'retune:pressure-range-written',
                          'retune:pressure-moved-by:array-refilled-in-place', 'retune:pressure-moved-by:fitting-parameters',
-                         'retune:deck-top-stepped-across-a-layer-pressure-by-a-hair'])
+                         'retune:deck-top-stepped-across-a-layer-pressure-by-a-hair',
+                         'retune:dozens-of-particle-sizes-earlier-ones-again'])
 
 
 def classify(f):
@@ -295,8 +296,17 @@ def wl_retune(ctx, rng):
     written through the fitting parameters (model[name] = value), no rebuild, and the model is evaluated again; every
     evaluation is judged like a fresh one against the clear model of the same atmosphere."""
     spec = make_case(rng)
-    lev, lay = levels_of(spec)
     kind = ['deck', 'flat', 'lee'][rng.integers(0, 3)]
+    # every fifth case on purpose: the layer pressures are the caller's own array, the range moves under an unchanged
+    # cloud top / haze window at the first re-evaluation (the kinds take turns)
+    grid_only = ctx.case['index'] % 5 == 2 and spec['temperature']['kind'] != 'npoint'
+    if grid_only:
+        kind = ['deck', 'flat', 'lee'][(ctx.case['index'] // 5) % 3]
+        spec['pressure_route'] = 'array'
+    long = ctx.case['index'] % 10 == 7
+    if long:
+        kind = 'lee'
+    lev, lay = levels_of(spec)
     lo, hi = np.log10(lev[-1]), np.log10(lev[0])
     clear_model = base.realise(spec)
     clear = base.run_model(ctx, clear_model)
@@ -325,9 +335,14 @@ def wl_retune(ctx, rng):
     ctx.observe('retune:' + kind, 'nlayers:%d' % spec['nlayers'])
     ctx.feature(summary=world.spec_summary(spec), retune=kind)
     rounds = int(rng.integers(2, 5))
+    sizes = []
+    if long:
+        # a long history on one haze object: dozens of particle sizes / Q values, earlier ones coming back
+        rounds = int(rng.integers(45, 80)) if ctx.tier == 'quick' else int(rng.integers(100, 400))
+        ctx.observe('retune:dozens-of-particle-sizes-earlier-ones-again')
     for r in range(rounds):
         moved_now = False
-        if r > 0 and rng.random() < 0.45 and spec['temperature']['kind'] != 'npoint':   # N-point nodes are tied to the range
+        if r > 0 and (rng.random() < 0.45 or (grid_only and r == 1)) and spec['temperature']['kind'] != 'npoint':   # N-point nodes are tied to the range
             # the pressure range of the model is written (atm_max_pressure / atm_min_pressure are fitting parameters):
             # the layers move under an unchanged cloud top / haze window; the clear twin follows
             sp = dict(spec, pmax=float(spec['pmax'] * 10 ** rng.uniform(-1, 1)), pmin=float(spec['pmin'] * 10 ** rng.uniform(-1, 1)))
@@ -344,7 +359,7 @@ def wl_retune(ctx, rng):
                     cls = window_class(bottom, top, lev) if bottom >= 0 and top >= 0 else 'unset'
                 ctx.observe('retune:pressure-range-written')
                 moved_now = True
-                if rng.random() < 0.5:
+                if rng.random() < 0.5 or (grid_only and r == 1):
                     r = -r          # only the grid moved: keep the cloud / haze parameters as they are
         if r > 0:
             if kind == 'deck' and not moved_now and rng.random() < 0.4:
@@ -385,8 +400,13 @@ def wl_retune(ctx, rng):
                     bottom, top, cls = draw_set_bounds()
                     model['lee_mie_bottomP'] = bottom
                     model['lee_mie_topP'] = top
+                if long:
+                    what = 1
                 if what in (1, 2):
                     a, q, mix = float(10 ** rng.uniform(-3, 0.7)), float(rng.uniform(1, 100)), float(10 ** rng.uniform(-16, -6))
+                    if long and len(sizes) > 4 and rng.random() < 0.35:
+                        a, q = sizes[int(rng.integers(0, len(sizes) - 1))]
+                    sizes.append((a, q))
                     model['lee_mie_radius'] = a
                     model['lee_mie_q'] = q
                     model['lee_mie_mix_ratio'] = mix
